@@ -144,6 +144,11 @@ func c13ViewsFrom(doc *gedcom.Document, pointers, tags map[string]bool, start in
 			func() { v["Individual.Spouses:"+k] = list(ind.Spouses()) },
 			func() { v["Individual.Parents:"+k] = list(ind.Parents()) },
 			func() { v["Individual.Children:"+k] = list(ind.Children()) },
+			func() {
+				ids := ind.UniqueIdentifiers().Strings()
+				sort.Strings(ids)
+				v["Individual.UniqueIdentifiers:"+k] = strings.Join(ids, ",")
+			},
 		}
 		for x := range reads {
 			if rev {
@@ -209,9 +214,11 @@ func (m *c13Mon) check(cause string) {
 		m.violation("undecodable-text:"+cause, fmt.Sprintf("after %s the document's text no longer decodes: %v", cause, err))
 		return
 	}
-	live := c13Views(m.doc, m.pointers, m.tags)
+	// a different accessor is the first to be asked after the edit each time
+	// (what the first one finds out about the edit must reach the others)
+	live := c13ViewsFrom(m.doc, m.pointers, m.tags, (m.checks*4+8)%9)
 	m.checks++
-	want := c13ViewsFrom(fresh, m.pointers, m.tags, m.checks%8) // a different accessor goes first each time
+	want := c13ViewsFrom(fresh, m.pointers, m.tags, m.checks%9) // a different accessor goes first each time
 	keys := map[string]bool{}
 	for k := range live {
 		keys[k] = true
